@@ -15,6 +15,7 @@ from .core import SPEC, VERIF, MachineryError
 from .tlc import run_tlc, must_ok, tla
 
 SCENARIOS = ("generic", "uniaxial", "isotropic")
+EXTRA_SCENARIOS = ("uniaxial23", "uniaxial13")       # other equal pairs: used for recorded runs of real data (trace validation)
 _SRC = ("Rat.tla", "QuadField.tla", "Voigt.tla", "ShearSolver.tla", "SchedInstance.tla")
 
 
